@@ -30,7 +30,9 @@ type predResult struct {
 
 type reader struct {
 	name string
-	run  func(in []byte) (ok bool, val string, rest []byte)
+	// run decodes into a destination whose pre-state is chosen by p: 0 = zero value, 1 = all-ones / long garbage,
+	// 2 = a plausible previous (bigger) value
+	run  func(in []byte, p int) (ok bool, val string, rest []byte)
 	pred func(in []byte) predResult
 	std  func(in []byte) (ok bool, val string, rest []byte) // encoding/asn1 counterpart (nil: none)
 }
@@ -70,10 +72,10 @@ type integer interface {
 	~int | ~int8 | ~int16 | ~int32 | ~int64 | ~uint | ~uint8 | ~uint16 | ~uint32 | ~uint64
 }
 
-func runInt[T integer]() func([]byte) (bool, string, []byte) {
-	return func(in []byte) (bool, string, []byte) {
+func runInt[T integer]() func([]byte, int) (bool, string, []byte) {
+	return func(in []byte, p int) (bool, string, []byte) {
 		s := cryptobyte.String(in)
-		var v T
+		v := preInt[T](p)
 		ok := s.ReadASN1Integer(&v)
 		return ok, fmt.Sprint(v), s
 	}
@@ -85,6 +87,77 @@ func stdInt[T integer]() func([]byte) (bool, string, []byte) {
 		rest, err := encasn1.Unmarshal(in, &v)
 		return err == nil, fmt.Sprint(v), rest
 	}
+}
+
+// ---- destination pre-states ----
+
+func preInt[T integer](p int) T {
+	switch p {
+	case 1:
+		return ^T(0)
+	case 2:
+		x := uint64(0x7b5a6c3d2e1f4a59)
+		return T(x)
+	}
+	return 0
+}
+
+func preBig(p int) *big.Int {
+	switch p {
+	case 1:
+		return new(big.Int).Neg(new(big.Int).Sub(bigPow2(200), big.NewInt(12345)))
+	case 2:
+		return new(big.Int).Sub(bigPow2(521), big.NewInt(1))
+	}
+	return new(big.Int)
+}
+
+func preBytes(p int) []byte {
+	switch p {
+	case 1:
+		b := make([]byte, 40, 64)
+		for i := range b[:64] {
+			b[:64][i] = 0xff
+		}
+		return b
+	case 2:
+		return append(make([]byte, 0, 16), 0x02, 0x01, 0x7f)
+	}
+	return nil
+}
+
+func preOID(p int) encasn1.ObjectIdentifier {
+	switch p {
+	case 1:
+		o := make(encasn1.ObjectIdentifier, 24, 32)
+		for i := range o {
+			o[i] = 1<<31 - 1
+		}
+		return o
+	case 2:
+		return append(make(encasn1.ObjectIdentifier, 0, 16), 2, 999, 3, 4, 5, 6, 7, 8, 9, 10)
+	}
+	return nil
+}
+
+func preBitString(p int) encasn1.BitString {
+	switch p {
+	case 1:
+		return encasn1.BitString{Bytes: preBytes(1), BitLength: 1 << 30}
+	case 2:
+		return encasn1.BitString{Bytes: []byte{0xaa, 0x80}, BitLength: 9}
+	}
+	return encasn1.BitString{}
+}
+
+func preTime(p int) time.Time {
+	switch p {
+	case 1:
+		return time.Unix(1<<40, 999999999).In(time.FixedZone("garbage", -7*3600-60))
+	case 2:
+		return time.Date(9999, 12, 31, 23, 59, 59, 5, time.UTC)
+	}
+	return time.Time{}
 }
 
 func bounds(bits uint, signed bool) (*big.Int, *big.Int) {
@@ -246,7 +319,7 @@ func unixOf(t time.Time) string { return fmt.Sprint(t.Unix()) }
 
 func buildReaders() []reader {
 	var rs []reader
-	addInt := func(name string, bits uint, signed bool, run, std func([]byte) (bool, string, []byte)) {
+	addInt := func(name string, bits uint, signed bool, run func([]byte, int) (bool, string, []byte), std func([]byte) (bool, string, []byte)) {
 		lo, hi := bounds(bits, signed)
 		rs = append(rs, reader{"ReadASN1Integer(*" + name + ")", run, predInt(tagInt, lo, hi), std})
 	}
@@ -260,9 +333,9 @@ func buildReaders() []reader {
 	addInt("uint32", 32, false, runInt[uint32](), nil)
 	addInt("uint64", 64, false, runInt[uint64](), nil)
 	addInt("uint", 64, false, runInt[uint](), nil)
-	rs = append(rs, reader{"ReadASN1Integer(*big.Int)", func(in []byte) (bool, string, []byte) {
+	rs = append(rs, reader{"ReadASN1Integer(*big.Int)", func(in []byte, p int) (bool, string, []byte) {
 		s := cryptobyte.String(in)
-		v := new(big.Int)
+		v := preBig(p)
 		ok := s.ReadASN1Integer(v)
 		return ok, canonBig(v), s
 	}, predInt(tagInt, nil, nil), func(in []byte) (bool, string, []byte) {
@@ -273,12 +346,12 @@ func buildReaders() []reader {
 		}
 		return true, canonBig(v), rest
 	}})
-	rs = append(rs, reader{"ReadASN1Integer(*[]byte)", func(in []byte) (bool, string, []byte) {
+	rs = append(rs, reader{"ReadASN1Integer(*[]byte)", func(in []byte, p int) (bool, string, []byte) {
 		s := cryptobyte.String(in)
-		var v []byte
+		v := preBytes(p)
 		ok := s.ReadASN1Integer(&v)
 		if !ok {
-			return false, "", s
+			return false, "raw:" + string(v), s
 		}
 		// documented: big-endian, no leading zeroes, zero = single zero byte
 		n := new(big.Int).SetBytes(v)
@@ -287,10 +360,10 @@ func buildReaders() []reader {
 		}
 		return true, canonBig(n), s
 	}, predInt(tagInt, big.NewInt(0), nil), nil})
-	rs = append(rs, reader{"ReadASN1Int64WithTag(own-tag)", func(in []byte) (bool, string, []byte) {
+	rs = append(rs, reader{"ReadASN1Int64WithTag(own-tag)", func(in []byte, p int) (bool, string, []byte) {
 		s := cryptobyte.String(in)
 		own, _ := tagsFor(in)
-		var v int64
+		v := preInt[int64](p)
 		ok := s.ReadASN1Int64WithTag(&v, asn1.Tag(own))
 		return ok, fmt.Sprint(v), s
 	}, func(in []byte) predResult {
@@ -298,9 +371,9 @@ func buildReaders() []reader {
 		lo, hi := i64lohi()
 		return predInt(own, lo, hi)(in)
 	}, nil})
-	rs = append(rs, reader{"ReadASN1Enum", func(in []byte) (bool, string, []byte) {
+	rs = append(rs, reader{"ReadASN1Enum", func(in []byte, p int) (bool, string, []byte) {
 		s := cryptobyte.String(in)
-		var v int
+		v := preInt[int](p)
 		ok := s.ReadASN1Enum(&v)
 		return ok, fmt.Sprint(v), s
 	}, func(in []byte) predResult { lo, hi := i64lohi(); return predInt(tagEnum, lo, hi)(in) }, func(in []byte) (bool, string, []byte) {
@@ -308,9 +381,9 @@ func buildReaders() []reader {
 		rest, err := encasn1.Unmarshal(in, &v)
 		return err == nil, fmt.Sprint(int(v)), rest
 	}})
-	rs = append(rs, reader{"ReadASN1Boolean", func(in []byte) (bool, string, []byte) {
+	rs = append(rs, reader{"ReadASN1Boolean", func(in []byte, p int) (bool, string, []byte) {
 		s := cryptobyte.String(in)
-		var v bool
+		v := p == 1
 		ok := s.ReadASN1Boolean(&v)
 		return ok, fmt.Sprint(v), s
 	}, predBool, func(in []byte) (bool, string, []byte) {
@@ -318,9 +391,9 @@ func buildReaders() []reader {
 		rest, err := encasn1.Unmarshal(in, &v)
 		return err == nil, fmt.Sprint(v), rest
 	}})
-	rs = append(rs, reader{"ReadASN1ObjectIdentifier", func(in []byte) (bool, string, []byte) {
+	rs = append(rs, reader{"ReadASN1ObjectIdentifier", func(in []byte, p int) (bool, string, []byte) {
 		s := cryptobyte.String(in)
-		var v encasn1.ObjectIdentifier
+		v := preOID(p)
 		ok := s.ReadASN1ObjectIdentifier(&v)
 		return ok, v.String(), s
 	}, predOID, func(in []byte) (bool, string, []byte) {
@@ -328,9 +401,9 @@ func buildReaders() []reader {
 		rest, err := encasn1.Unmarshal(in, &v)
 		return err == nil, v.String(), rest
 	}})
-	rs = append(rs, reader{"ReadASN1BitString", func(in []byte) (bool, string, []byte) {
+	rs = append(rs, reader{"ReadASN1BitString", func(in []byte, p int) (bool, string, []byte) {
 		s := cryptobyte.String(in)
-		var v encasn1.BitString
+		v := preBitString(p)
 		ok := s.ReadASN1BitString(&v)
 		return ok, fmt.Sprintf("%s/%d", v.Bytes, v.BitLength), s
 	}, predBits(false), func(in []byte) (bool, string, []byte) {
@@ -338,9 +411,9 @@ func buildReaders() []reader {
 		rest, err := encasn1.Unmarshal(in, &v)
 		return err == nil, fmt.Sprintf("%s/%d", v.Bytes, v.BitLength), rest
 	}})
-	rs = append(rs, reader{"ReadASN1BitStringAsBytes", func(in []byte) (bool, string, []byte) {
+	rs = append(rs, reader{"ReadASN1BitStringAsBytes", func(in []byte, p int) (bool, string, []byte) {
 		s := cryptobyte.String(in)
-		var v []byte
+		v := preBytes(p)
 		ok := s.ReadASN1BitStringAsBytes(&v)
 		return ok, string(v), s
 	}, predBits(true), nil})
@@ -354,15 +427,15 @@ func buildReaders() []reader {
 			return err == nil, unixOf(v), rest
 		}
 	}
-	rs = append(rs, reader{"ReadASN1UTCTime", func(in []byte) (bool, string, []byte) {
+	rs = append(rs, reader{"ReadASN1UTCTime", func(in []byte, p int) (bool, string, []byte) {
 		s := cryptobyte.String(in)
-		var v time.Time
+		v := preTime(p)
 		ok := s.ReadASN1UTCTime(&v)
 		return ok, unixOf(v), s
 	}, predTime(tagUTC), stdTime(tagUTC)})
-	rs = append(rs, reader{"ReadASN1GeneralizedTime", func(in []byte) (bool, string, []byte) {
+	rs = append(rs, reader{"ReadASN1GeneralizedTime", func(in []byte, p int) (bool, string, []byte) {
 		s := cryptobyte.String(in)
-		var v time.Time
+		v := preTime(p)
 		ok := s.ReadASN1GeneralizedTime(&v)
 		return ok, unixOf(v), s
 	}, predTime(tagGenT), stdTime(tagGenT)})
@@ -380,50 +453,50 @@ func buildReaders() []reader {
 			}
 			return b
 		}
-		rs = append(rs, reader{"ReadASN1" + sfx, func(in []byte) (bool, string, []byte) {
+		rs = append(rs, reader{"ReadASN1" + sfx, func(in []byte, p int) (bool, string, []byte) {
 			s := cryptobyte.String(in)
-			var out cryptobyte.String
+			out := cryptobyte.String(preBytes(p))
 			tag := pick(in)
 			ok := s.ReadASN1(&out, asn1.Tag(tag))
 			return ok, fmt.Sprintf("%02x:", tag) + string(out), s
 		}, func(in []byte) predResult { return predTLV(pick(in), false, false)(in) }, nil})
-		rs = append(rs, reader{"ReadASN1Bytes" + sfx, func(in []byte) (bool, string, []byte) {
+		rs = append(rs, reader{"ReadASN1Bytes" + sfx, func(in []byte, p int) (bool, string, []byte) {
 			s := cryptobyte.String(in)
-			var out []byte
+			out := preBytes(p)
 			tag := pick(in)
 			ok := s.ReadASN1Bytes(&out, asn1.Tag(tag))
 			return ok, fmt.Sprintf("%02x:", tag) + string(out), s
 		}, func(in []byte) predResult { return predTLV(pick(in), false, false)(in) }, nil})
-		rs = append(rs, reader{"ReadASN1Element" + sfx, func(in []byte) (bool, string, []byte) {
+		rs = append(rs, reader{"ReadASN1Element" + sfx, func(in []byte, p int) (bool, string, []byte) {
 			s := cryptobyte.String(in)
-			var out cryptobyte.String
+			out := cryptobyte.String(preBytes(p))
 			tag := pick(in)
 			ok := s.ReadASN1Element(&out, asn1.Tag(tag))
 			return ok, fmt.Sprintf("%02x:", tag) + string(out), s
 		}, func(in []byte) predResult { return predTLV(pick(in), false, true)(in) }, nil})
-		rs = append(rs, reader{"SkipASN1" + sfx, func(in []byte) (bool, string, []byte) {
+		rs = append(rs, reader{"SkipASN1" + sfx, func(in []byte, p int) (bool, string, []byte) {
 			s := cryptobyte.String(in)
 			ok := s.SkipASN1(asn1.Tag(pick(in)))
 			return ok, "", s
 		}, func(in []byte) predResult { p := predTLV(pick(in), false, false)(in); p.val = ""; return p }, nil})
-		rs = append(rs, reader{"ReadOptionalASN1" + sfx, func(in []byte) (bool, string, []byte) {
+		rs = append(rs, reader{"ReadOptionalASN1" + sfx, func(in []byte, p int) (bool, string, []byte) {
 			s := cryptobyte.String(in)
-			var out cryptobyte.String
-			var present bool
+			out := cryptobyte.String(preBytes(p))
+			present := p == 1
 			ok := s.ReadOptionalASN1(&out, &present, asn1.Tag(pick(in)))
 			if present {
 				return ok, "present:" + string(out), s
 			}
 			return ok, "absent:", s
 		}, func(in []byte) predResult { return predOptional(pick(in), "", nil)(in) }, nil})
-		rs = append(rs, reader{"SkipOptionalASN1" + sfx, func(in []byte) (bool, string, []byte) {
+		rs = append(rs, reader{"SkipOptionalASN1" + sfx, func(in []byte, p int) (bool, string, []byte) {
 			s := cryptobyte.String(in)
 			ok := s.SkipOptionalASN1(asn1.Tag(pick(in)))
 			return ok, "", s
 		}, func(in []byte) predResult { p := predOptional(pick(in), "", nil)(in); p.val = ""; return p }, nil})
-		rs = append(rs, reader{"ReadOptionalASN1Integer(int64)" + sfx, func(in []byte) (bool, string, []byte) {
+		rs = append(rs, reader{"ReadOptionalASN1Integer(int64)" + sfx, func(in []byte, p int) (bool, string, []byte) {
 			s := cryptobyte.String(in)
-			var v int64
+			v := preInt[int64](p)
 			ok := s.ReadOptionalASN1Integer(&v, asn1.Tag(pick(in)), int64(-77))
 			return ok, fmt.Sprint(v), s
 		}, func(in []byte) predResult {
@@ -432,9 +505,9 @@ func buildReaders() []reader {
 			p.val = strings.TrimPrefix(strings.TrimPrefix(p.val, "present:"), "absent:")
 			return p
 		}, nil})
-		rs = append(rs, reader{"ReadOptionalASN1Integer(*big.Int)" + sfx, func(in []byte) (bool, string, []byte) {
+		rs = append(rs, reader{"ReadOptionalASN1Integer(*big.Int)" + sfx, func(in []byte, p int) (bool, string, []byte) {
 			s := cryptobyte.String(in)
-			v := new(big.Int)
+			v := preBig(p)
 			ok := s.ReadOptionalASN1Integer(v, asn1.Tag(pick(in)), big.NewInt(-77))
 			return ok, canonBig(v), s
 		}, func(in []byte) predResult {
@@ -442,10 +515,10 @@ func buildReaders() []reader {
 			p.val = strings.TrimPrefix(strings.TrimPrefix(p.val, "present:"), "absent:")
 			return p
 		}, nil})
-		rs = append(rs, reader{"ReadOptionalASN1OctetString" + sfx, func(in []byte) (bool, string, []byte) {
+		rs = append(rs, reader{"ReadOptionalASN1OctetString" + sfx, func(in []byte, p int) (bool, string, []byte) {
 			s := cryptobyte.String(in)
-			var v []byte
-			var present bool
+			v := preBytes(p)
+			present := p == 1
 			ok := s.ReadOptionalASN1OctetString(&v, &present, asn1.Tag(pick(in)))
 			if present {
 				return ok, "present:" + string(v), s
@@ -455,9 +528,9 @@ func buildReaders() []reader {
 			}
 			return ok, "absent:", s
 		}, func(in []byte) predResult { return predOptional(pick(in), "", predOctetInner)(in) }, nil})
-		rs = append(rs, reader{"ReadOptionalASN1Boolean" + sfx, func(in []byte) (bool, string, []byte) {
+		rs = append(rs, reader{"ReadOptionalASN1Boolean" + sfx, func(in []byte, p int) (bool, string, []byte) {
 			s := cryptobyte.String(in)
-			v := false
+			v := p == 1
 			ok := s.ReadOptionalASN1Boolean(&v, asn1.Tag(pick(in)), true)
 			return ok, fmt.Sprint(v), s
 		}, func(in []byte) predResult {
@@ -466,17 +539,17 @@ func buildReaders() []reader {
 			return p
 		}, nil})
 	}
-	rs = append(rs, reader{"ReadAnyASN1", func(in []byte) (bool, string, []byte) {
+	rs = append(rs, reader{"ReadAnyASN1", func(in []byte, p int) (bool, string, []byte) {
 		s := cryptobyte.String(in)
-		var out cryptobyte.String
-		var tag asn1.Tag
+		out := cryptobyte.String(preBytes(p))
+		tag := asn1.Tag(preInt[uint8](p))
 		ok := s.ReadAnyASN1(&out, &tag)
 		return ok, fmt.Sprintf("%02x:", byte(tag)) + string(out), s
 	}, predTLV(0, true, false), nil})
-	rs = append(rs, reader{"ReadAnyASN1Element", func(in []byte) (bool, string, []byte) {
+	rs = append(rs, reader{"ReadAnyASN1Element", func(in []byte, p int) (bool, string, []byte) {
 		s := cryptobyte.String(in)
-		var out cryptobyte.String
-		var tag asn1.Tag
+		out := cryptobyte.String(preBytes(p))
+		tag := asn1.Tag(preInt[uint8](p))
 		ok := s.ReadAnyASN1Element(&out, &tag)
 		return ok, fmt.Sprintf("%02x:", byte(tag)) + string(out), s
 	}, predTLV(0, true, true), func(in []byte) (bool, string, []byte) {
@@ -487,9 +560,9 @@ func buildReaders() []reader {
 		}
 		return true, fmt.Sprintf("%02x:", in[0]) + string(v.FullBytes), rest
 	}})
-	rs = append(rs, reader{"ReadASN1Bytes(OCTET_STRING)", func(in []byte) (bool, string, []byte) {
+	rs = append(rs, reader{"ReadASN1Bytes(OCTET_STRING)", func(in []byte, p int) (bool, string, []byte) {
 		s := cryptobyte.String(in)
-		var out []byte
+		out := preBytes(p)
 		ok := s.ReadASN1Bytes(&out, asn1.OCTET_STRING)
 		return ok, "04:" + string(out), s
 	}, predTLV(tagOctet, false, false), func(in []byte) (bool, string, []byte) {
